@@ -18,4 +18,8 @@ def inner(a: PolyLike, b: PolyLike) -> ndpoly:
 
     """
     a, b = numpoly.align_exponents(a, b)
+    if not a.ndim or not b.ndim:
+        return numpoly.multiply(a, b)
+    # sum product over the last axes: out[i..., j...] = sum(a[i..., :]*b[j..., :])
+    a = a[(Ellipsis,) + (numpy.newaxis,) * (b.ndim - 1) + (slice(None),)]
     return numpoly.sum(numpoly.multiply(a, b), axis=-1)
